@@ -20,21 +20,26 @@ vars == <<stage, part, u, src, alias>>
 Schemes == {"https", "http", "ws", "wss", "ftp", "HTTPS", "Ws"}
 UserInfos == IF Big THEN {"", "u", "u:p", "a.com", "u:p@x"} ELSE {"", "u:p", "a.com"}
 HostsU == {"a.com", "s.a.com", "t.s.a.com", "b.com", "a.co.uk", "s.a.co.uk", "b.co.uk", "xa.com", "localhost",
-           "1.2.3.4", "5.2.3.4", "a-b.com", "a.b.a.com", "A.com", "S.a.COM", "bücher.a.com", "пример.рф"}
+           "1.2.3.4", "5.2.3.4", "a-b.com", "a.b.a.com", "A.com", "S.a.COM", "bücher.a.com", "пример.рф",
+           \* IPv6 literals (the brackets are part of the host component) and fully qualified names
+           "[::1]", "[2001:db8::1]", "a.com.", "s.a.com."}
+\* with a trailing dot the statement does not say whether 'a.com.' and 'a.com' are the same registrable
+\* domain: the party is left unspecified for those hosts, the hostname is not
+TrailingDot(h) == Len(Chars(h)) > 0 /\ Chars(h)[Len(Chars(h))] = "."
 \* punycode is a given (DESIGN.md section 3.1): the ASCII form of the IDN hosts of the universe
 Ascii(h) == CASE h = "bücher.a.com" -> "xn--bcher-kva.a.com" [] h = "пример.рф" -> "xn--e1afmkfd.xn--p1ai" [] OTHER -> h
 Ports == {"", "8080"}
 \* for the special schemes a backslash ends the authority like a slash does (WHATWG URL): text after it,
 \* an '@' included, belongs to the path
 Rests == {"/", "", "/p?q=1", "?q=a@b.com", "#f@b.com", "/a.com/@x", "/p#f?x", "\\@b.com/x", "\\p"}
-SrcHosts == {"a.com", "s.a.com", "b.com", "a.co.uk", "b.co.uk", "co.uk", "1.2.3.4", "localhost", "t.s.a.com"}
+SrcHosts == {"a.com", "s.a.com", "b.com", "a.co.uk", "b.co.uk", "co.uk", "1.2.3.4", "localhost", "t.s.a.com", "[::1]"}
 Aliases == IF Big THEN {"script", "document", "websocket", "xhr", "foo"} ELSE {"script", "foo"}
 
 LowerStr(s) == Str(LowerS(Chars(s)))
 Text(x) == x.scheme \o "://" \o (IF x.userinfo = "" THEN "" ELSE x.userinfo \o "@") \o x.host
            \o (IF x.port = "" THEN "" ELSE ":" \o x.port) \o x.rest
 
-IsIp(h) == \A i \in 1..Len(Chars(h)) : Chars(h)[i] \in Digits \cup {"."}
+IsIp(h) == (Chars(h)[1] = "[") \/ \A i \in 1..Len(Chars(h)) : Chars(h)[i] \in Digits \cup {"."}
 RegDomainIp(h) == IF IsIp(h) \/ Len(Labels(h)) = 1 THEN h ELSE RegDomain(h)
 
 TypeOf(a) == CASE a = "script" -> "script" [] a = "document" -> "document" [] a = "websocket" -> "websocket"
@@ -45,6 +50,7 @@ Expect(x, s, a) ==
   LET sc == LowerStr(x.scheme) IN
   [hostname |-> LowerStr(Ascii(x.host)),
    tp |-> (s = "" \/ s = "%" \/ RegDomainIp(LowerStr(x.host)) # RegDomainIp(s)),
+   tp_any |-> (TrailingDot(x.host) /\ s \notin {"", "%"}),
    supported |-> sc \in {"http", "https", "ws", "wss"},
    http |-> sc = "http", https |-> sc = "https",
    type |-> IF sc \in {"ws", "wss"} THEN "websocket" ELSE TypeOf(a)]
